@@ -124,7 +124,7 @@ func c18AddrIdx(s string) int {
 func c18NewCmRig(target int, ban bool, lockstep bool, retry time.Duration) (*c18CmRig, error) {
 	r := &c18CmRig{tgt: target, ban: ban, lockstep: lockstep, quit: make(chan struct{})}
 	r.cond = sync.NewCond(&r.mu)
-	nop := zerolog.Nop()
+	nop := lib.DiscardLog()
 	cfg := &connmgr.Config{
 		TargetOutbound: uint32(target),
 		RetryDuration:  retry,
